@@ -56,6 +56,12 @@ CHECKS.update({
  "C08": dict(engine="pdilayout", section="6/C08",
    text="PdiLayout.tla models the layout algorithm (one action per SubDevice and direction: inputs of a group in SubDevice order, then outputs, capacity check, next group at its own start address; per sync manager the SM registers and the FMMU chosen, created or extended) over device descriptions (process data sync managers per direction with the byte length their PDOs need after oversampling, FMMU usage list, FMMU_EX, CoE or EEPROM configured). TLC proves LengthsRight, WindowsRight (inside the image, inputs before outputs, disjoint), MapExact (the FMMUs translate every window byte to exactly the device's process data byte and map nothing else), SmRight, GroupsDisjoint and TooLongIsError for every network of up to 2-3 devices from a family with one or two sync managers per direction, back to back or spaced, one FMMU per direction or per sync manager, 1-3 groups and capacities small enough to reach PdiTooLong. Seeded networks of 1..16 devices (0..8 PDOs per direction, 1..64 bit entries, up to three sync managers per direction, CoE and EEPROM, FMMU_EX, oversampling, 1..3 groups, capacities 16..1024) are configured and cycled by the real MainDevice on the simulated segment; PdiLayoutTrace starts the model from each case and requires the same FMMU and SM registers, image lengths and group results (conformance), and judges the property's clauses on the observations alone: view lengths, FMMU translation of every window byte, disjointness, order, containment, capacity, group disjointness, and that the random outputs written to each SubDevice are what its output memory holds and its input memory is what its inputs show.",
    note="Window positions are derived from the FMMU registers and confirmed by data flow. The EEPROM path programs FMMU[sync manager index] regardless of FMMU_EX (modelled as is; correct on the simulated 8-FMMU ESC)."),
+ "C15": dict(engine="coe", section="6/C15",
+   text="CoE.tla specifies SDO upload (expedited, normal, segmented) and expedited download at the level of the bytes both sides put into the mailboxes (ETG1000.6 message layouts), one action per mailbox message; the server chooses freely among the responses the standard allows, so TLC explores every transfer type and every segment split that fits mailboxes of 16..24 bytes for objects of 0..25 bytes and destinations of both kinds (integers / fixed arrays, strings / vectors), with aborts, emergencies and responses for another object injected. TLC proves ReadExact, WriteExact, FaultsReported, CounterCycles, NeverBeyondBuffer, OneOutstanding, Progress, and finds the loss of the initiate-response data and the three-byte shift of the unrepaired code. The real sdo_read / sdo_write / sdo_read_array / sdo_write_array run against the simulated CoE server (objects 0..512 bytes, mailboxes 16..1024, all upload modes and forced segment-size patterns incl. the <7 byte last segment, complete access, every abort code, emergencies with arbitrary codes, stale out-mailbox); CoETrace requires every request the MainDevice wrote to be byte for byte the model client's request, feeds every logged response to the model client and requires the same result and bytes, and judges the observations: exact bytes, stored value, abort code, emergency code and register, invalid-response, too-long, counters cycling 1..7.",
+   note="Writes of more than four bytes are refused by ethercrab (documented limitation) and judged as 'any outcome'; so are expedited objects larger than an integer destination."),
+ "C16": dict(engine="coe", section="6/C16",
+   text="CoEHostileMC runs the client of CoE.tla (every device-supplied length guarded the way the code guards it) against an adversary that draws each response from a field-mutated family - length field 0..65535, mailbox type, service (emergency, SDO request / response, SDO information), all kinds of SDO command byte, right and wrong object, complete sizes up to 2^31-1, with and without data; TLC evaluating the client on all of them is the totality argument, and proves NeverBeyondBuffer, RequestsBounded (every non-final segment adds a byte to a bounded buffer: termination) and Ends. Every SDO / SDO information entry point of the real MainDevice is then answered with scripted mailbox contents on the simulated device: field-mutated responses, mutated segment sequences behind a well-formed start, truncations, random bytes, endless repetitions and unsolicited endless fragments, mailbox sizes 16..1024. CoETrace requires an orderly end (no panic, hang, exhausted frame budget), the frame bound that follows from the destination buffer, and - for the typed read entry points - the same value-or-error outcome and value as the model client fed with the logged replies.",
+   note="Quick uses a reduced adversary family in TLC (the full one has 34 M states). Mailboxes below 16 bytes are not supported by the simulated device."),
  "C12": dict(engine="eeprom", section="6/C12",
    text="SiiRead.tla models EepromRange (window from start word and byte length, chunk assembly with odd-offset skip and end clamp, 4/8-byte devices); TLC proves ReturnsExactlyRange, NeverBeyondWindow and AccessesBounded for every start, length 0..20 and both chunk sizes. SiiImage.tla specifies the SII format (header words, category list, strings, general, FMMU, sync managers, FMMU_EX, PDOs with entry sums, container limits) as functions of the image bytes. The real MainDevice reads (start word, length) ranges through eeprom_read_raw / eeprom_read::<T> on simulated devices of 8 kbit to 4 Mbit serving 4 or 8 bytes per access, and SiiReadTrace requires exactly the bytes of the harness' own image copy, full length, nothing beyond the count, and the read count SiiRead predicts. Random device descriptions within the property's quantifier are encoded to images; SiiImageTrace requires every query of ethercrab's parser (through the field dump hook) and the identity/name/alias of the initialised SubDevice to equal SiiImage's reading of the image, and SiiImage's reading to equal the description (oracle cross-check).",
    note="Strings longer than the MainDevice's containers (64/128 bytes) are specified as StringTooLong; the port and physical-memory-address fields of the general category are outside the property and not compared (ethercrab reads them two bytes early, see DESIGN 11.3). A string index one past the table is not judged."),
@@ -107,6 +113,8 @@ def main():
                  kind_free_text="WireLayout.tla + WireLayoutMC/Trace; generated crate harness/wiregen"),
             dict(name="pdilayout", path="checks/pdilayout.py", serves_properties=["C08"],
                  kind_free_text="PdiLayout.tla + PdiLayoutMC/Trace; vsim2 pdi engine (registers, views and process memory of simulated devices)"),
+            dict(name="coe", path="checks/coe.py", serves_properties=["C15", "C16"],
+                 kind_free_text="CoE.tla + CoEMC / CoEHostileMC / CoETrace; vsim2 coe engine (simulated CoE server with ETG1000.6 layouts, scripted hostile mailbox)"),
             dict(name="eeprom", path="checks/eeprom.py", serves_properties=["C12", "C13", "C14"],
                  kind_free_text="SiiRead/SiiImage/SiiCategories/SiiWrite + SiiReadTrace/SiiImageTrace/SiiHostileTrace/SiiWriteTrace; vsim2 eeprom engine (public API on simulated devices, parser over an in-memory provider through the hooks)"),
             dict(name="simdev", path="harness/simdev", serves_properties=["C07", "C09", "C10", "C11", "C18"],
